@@ -602,7 +602,9 @@ def witnesses() -> List[Dict[str, Any]]:
               "cols": {"emb~0": "int", "emb~1": "int", "emb~2": "int"}, "table": t, "request": ["a_id", "emb"]}
         out.append({"kind": "path", "family": "A", "sub": "witness:range_on_sub_column", "groups": [gA], "witness": True,
                     "filters": [{"col": "emb~1", "type": "range", "par": {"min": ["i", 20], "max": ["i", 40], "max_exclusive": True}}]})
-        out.append({"kind": "path", "family": "A", "sub": "witness:collapse", "groups": [gA], "witness": True,
+        tc = [{"id": ["i", i], "emb~0": ["i", i], "emb~1": (["i", v] if v is not None else None), "emb~2": ["i", w]}
+              for i, (v, w) in enumerate(zip([10, 1, 30, 40, None], [5, 4, 1, 2, 3]))]      # whichever filter survives, rows differ from [0]
+        out.append({"kind": "path", "family": "A", "sub": "witness:collapse", "groups": [{**gA, "table": tc}], "witness": True,
                     "filters": [{"col": "emb~1", "type": "min", "par": {"value": ["i", 3]}},
                                 {"col": "emb~2", "type": "min", "par": {"value": ["i", 3]}}]})
         tb = [{"id": ["i", i], "ROut": ["i", a], "R2": ["i", b]} for i, (a, b) in enumerate(zip([1, 2, 3], [3, 2, 1]))]
